@@ -244,7 +244,14 @@ def main():
 
     # ---- evidence
     n_obl = len(clauses)
-    level = "proof" if n_obl and not (rt_info and rt_info.get("principal")) else "other"
+    claimed = "other"
+    try:
+        for c in json.load(open(os.path.join(VERIF, "MANIFEST.json")))["checks"]:
+            if c["property_id"] == prop:
+                claimed = c["level_claimed"]["category"]
+    except (OSError, ValueError, KeyError):
+        pass
+    level = "proof" if (claimed == "proof" and n_obl and discharged == n_obl) else "other"
     samples = []
     for oid, obs in list(clauses.items())[:6]:
         samples.append({"obligation": oid, "paths": len(obs), "verdicts": sorted({o["verdict"] for o in obs}),
